@@ -4,4 +4,6 @@ package discovery
 
 var vEntries = map[string]interface{}{
 	"VDisc": VDisc,
+	"VHash": VHash,
+	"VHashDedupe": VHashDedupe,
 }
